@@ -123,8 +123,12 @@ func (c *Channel) Close() error {
 
 	// Drain any pending requests.
 	go func() { c.wg.Wait(); close(c.rsp) }()
-	for range c.rsp {
-		// discard
+	for next := range c.rsp {
+		// A response discarded here still owns an open body, which must be
+		// closed to release its connection.
+		if next.err == nil {
+			next.rsp.Body.Close()
+		}
 	}
 	return nil
 }
